@@ -21,10 +21,23 @@ def load_rule(pid: str):
 
 
 def run_one(pid: str, tier: str, replay: str | None = None, jobs: int = 16) -> int:
+    ctx = None
     try:
         mod = load_rule(pid)
         ctx = Ctx(pid, tier, getattr(mod, 'LEVEL', 'other'))
-        mod.run(ctx)
+        try:
+            mod.run(ctx)
+        except AnalysisError as e:
+            # part of the analysis could not be carried out.  Violations already established on this tree are still violations
+            # (the construct they name is usually why the rest could not be analysed); without any, the run is undecided (exit 2).
+            ctx.floors = []
+            ctx.quiet = True
+            if any(not o['ok'] for o in ctx.obligations):
+                rc = ctx.finish()
+                if rc == 1:
+                    print(f'ANALYSIS-INCOMPLETE property={pid}: {e}')
+                    return 1
+            raise
         if tier == 'thorough' and hasattr(mod, 'run_thorough'):
             mod.run_thorough(ctx)
         if replay:
